@@ -298,3 +298,133 @@ def finish(rep):
         f"validated={rep.validated} wall={time.time() - rep.t0:.1f}s exit={code}"
     )
     return code
+
+
+# ---------------------------------------------------------------------------------------------
+# One scenario, two modes.  A scenario is a function scenario(C) written against this small
+# interface; SymC runs it under SX (values are symbols, checks are proof obligations), ConcC runs
+# the SAME code on concrete values taken from a counterexample against the real library -- that is
+# the replay.  A check that fails in concrete mode means the violation reproduces.
+
+
+class SymC:
+    symbolic = True
+
+    def __init__(self, e):
+        self.e = e
+
+    def int(self, name, lo=None, hi=None):
+        return self.e.int(name, lo, hi)
+
+    def real(self, name):
+        return self.e.real(name)
+
+    def bool(self, name):
+        return self.e.bool(name)
+
+    def choice(self, name, n):
+        """an index in range(n): symbolic, realised (every value explored)"""
+        return self.e.realize(self.e.int(name, 0, n - 1))
+
+    def assume(self, c):
+        self.e.assume(c)
+
+    def eq(self, a, b, label, detail=None):
+        if sx.is_sym(a) or sx.is_sym(b):
+            return self.e.prove_eq(a, b, label, detail)
+        try:
+            same = bool(a == b) or (a != a and b != b)
+        except Exception:
+            same = a is b
+        return self.e.prove(bool(same), label, detail)
+
+    def true(self, c, label, detail=None):
+        return self.e.prove(c if isinstance(c, sx.SymBool) else bool(c), label, detail)
+
+
+class ConcC:
+    symbolic = False
+
+    def __init__(self, inputs):
+        self.inputs = inputs
+        self.failures = []
+
+    def _get(self, name, default):
+        v = self.inputs.get(name, default)
+        return v
+
+    def int(self, name, lo=None, hi=None):
+        return int(self._get(name, lo if lo is not None else 0))
+
+    def real(self, name):
+        return float(self._get(name, 0))
+
+    def bool(self, name):
+        return bool(self._get(name, False))
+
+    def choice(self, name, n):
+        return int(self._get(name, 0))
+
+    def assume(self, c):
+        if not c:
+            raise _Skip()
+
+    def eq(self, a, b, label, detail=None):
+        try:
+            import numpy as _np
+
+            if isinstance(a, float) or isinstance(b, float):
+                same = bool(_np.isclose(a, b, rtol=1e-9, atol=1e-12)) or (a != a and b != b)
+            else:
+                same = bool(a == b)
+        except Exception:
+            same = a is b
+        if not same:
+            self.failures.append((label, f"{a!r} != {b!r}" + (f" [{detail}]" if detail is not None else "")))
+        return same
+
+    def true(self, c, label, detail=None):
+        if not c:
+            self.failures.append((label, f"false" + (f" [{detail}]" if detail is not None else "")))
+        return bool(c)
+
+
+class _Skip(Exception):
+    pass
+
+
+def run_scenario(scenario, name, sig=lambda label: label, cfg=None, on_exception_label=None, engine_opts=None):
+    """explore scenario under SX; replay every counterexample with the same scenario in concrete mode"""
+    eng = sx.Engine(name=name, **(engine_opts or {}))
+    eng.stop_on_cex = False
+
+    def h(e):
+        scenario(SymC(e))
+
+    on_exc = None
+    if on_exception_label:
+        def on_exc(e, exc):  # noqa: E306
+            e.prove(False, on_exception_label, detail=f"{type(exc).__name__}: {str(exc)[:200]}")
+
+    eng.explore(h, on_exception=on_exc)
+    viol = []
+    for c in eng.cex:
+        ok, obs = replay_scenario(scenario, c.inputs, c.label, on_exception_label)
+        viol.append(violation(c.label, sig(c.label), cfg or {}, c.inputs, obs, ok))
+    return dict(stats=eng.stats.as_dict(), violations=viol)
+
+
+def replay_scenario(scenario, inputs, label, on_exception_label=None):
+    C = ConcC(inputs)
+    try:
+        scenario(C)
+    except _Skip:
+        return False, "precondition not met by the concrete inputs"
+    except Exception as ex:
+        if on_exception_label and (label == on_exception_label or True):
+            return True, dict(raised=f"{type(ex).__name__}: {str(ex)[:300]}", inputs={k: str(v) for k, v in list(inputs.items())[:12]})
+        raise
+    fails = [f for f in C.failures if f[0] == label] or C.failures
+    if fails:
+        return True, dict(failed=[f"{l}: {m}"[:300] for l, m in fails[:3]], inputs={k: str(v) for k, v in list(inputs.items())[:12]})
+    return False, "no check failed on the concrete inputs"
